@@ -628,6 +628,17 @@ class Contract:
 
     effect_asserts = ()
 
+    def closure_role(self, name, rhs_contains):
+        """the captured variable `name` is the local of the enclosing function that is assigned from an expression whose
+        source contains `rhs_contains` (exactly equals it when it starts with '=') -- used when the code no longer
+        spells the variable `name`"""
+        if "closure_roles" not in self.__dict__:
+            self.closure_roles = {}
+        self.closure_roles[name] = rhs_contains
+        return self
+
+    closure_roles = {}
+
     def closure(self, name, ty):
         """a free variable of a nested function under contract (a closure): verified for an arbitrary value of that
         type, which is also a binding the clauses may mention"""
